@@ -41,6 +41,11 @@ SUITE_EXPECTS = {
     "place": [("place/", 0.5)],
 }
 
+# what a suite may at most see per case (a tolerated disturbance that must stay rare)
+SUITE_LIMITS = {
+    "faults": [("late answer of a well-behaved neighbor", 0.25)],
+}
+
 
 def known_findings():
     fnd, fixed = [], []
@@ -272,6 +277,16 @@ def main():
                                    (sname, sub, got, ps["cases"], need, "\n".join("%6d %s" % (n, k) for k, n in sorted(ps["hist"].items()))))
                 violations.append(("coverage-collapse:" + sname, path, False,
                                    "suite %s generated %d occurrences of %r in %d cases (at least %.0f expected): its set-up no longer goes through" % (sname, got, sub, ps["cases"], need)))
+
+        for (sub, per_case) in SUITE_LIMITS.get(sname, []):
+            got = sum(n for k, n in ps["hist"].items() if sub in k)
+            if ps["cases"] >= 16 and got > per_case * ps["cases"]:
+                path = replay_file("disturbance_%s" % sname,
+                                   "Suite %s: %d occurrences of %r in %d cases (at most %.1f tolerated).\n"
+                                   "Answers of well-behaved neighbors reach the node after its per-neighbor timeout far more often than machine load explains:\n"
+                                   "the model was told these fetches failed, so the rounds concerned were compared under that assumption only.\n" % (sname, got, sub, ps["cases"], per_case * ps["cases"]))
+                violations.append(("coverage-collapse:" + sname, path, False,
+                                   "suite %s saw %d occurrences of %r in %d cases (at most %.0f tolerated)" % (sname, got, sub, ps["cases"], per_case * ps["cases"])))
 
     # correspondence mismatches that concern this property's model functions
     relevant_kinds = cfg.get("mismatch_kinds")
